@@ -42,17 +42,30 @@ const (
 	phantomCount
 )
 
-const maxCompositeNesting = 20 // protect against malicious fonts
+const (
+	maxCompositeNesting = 20 // protect against malicious fonts
+	// maximum number of components (at all levels) followed for one glyph,
+	// since the nesting limit alone allows a number of components exponential in the depth
+	// (same value as HB_GLYF_MAX_EDGE_COUNT in Harfbuzz)
+	maxCompositeEdges = 1024
+)
 
 // use the `glyf` table to fetch the contour points,
 // applying variation if needed.
 // for composite, recursively calls itself; allPoints includes phantom points and will be at least of length 4
 func (f *Face) getPointsForGlyph(gid tables.GlyphID, currentDepth int, allPoints *[]contourPoint /* OUT */) {
+	var edgeCount int
+	f.getPointsForGlyphRec(gid, currentDepth, &edgeCount, allPoints)
+}
+
+// [edgeCount] is the number of glyphs visited so far, shared by the whole recursion
+func (f *Face) getPointsForGlyphRec(gid tables.GlyphID, currentDepth int, edgeCount *int, allPoints *[]contourPoint /* OUT */) {
 	// adapted from harfbuzz/src/hb-ot-glyf-table.hh
 
-	if currentDepth > maxCompositeNesting || int(gid) >= len(f.glyf) {
+	if currentDepth > maxCompositeNesting || *edgeCount > maxCompositeEdges || int(gid) >= len(f.glyf) {
 		return
 	}
+	*edgeCount++
 
 	g := f.glyf[gid]
 
@@ -88,7 +101,7 @@ func (f *Face) getPointsForGlyph(gid tables.GlyphID, currentDepth int, allPoints
 			// recurse on component
 			var compPoints []contourPoint
 
-			f.getPointsForGlyph(item.GlyphIndex, currentDepth+1, &compPoints)
+			f.getPointsForGlyphRec(item.GlyphIndex, currentDepth+1, edgeCount, &compPoints)
 
 			LC := len(compPoints)
 			if LC < phantomCount { // max depth reached or invalid component glyph:
